@@ -51,7 +51,7 @@ SameResult(a, b) == /\ Gist(a) = Gist(b)
 TailFailed(line, i, router) ==
    LET r == line.reqs[i] IN
    IF UTail(r.u) = "" \/ (router = "l" /\ HasMixed(line.doc)) THEN {}
-   ELSE LET js == {j \in 1..Len(line.reqs) : /\ line.reqs[j].m = r.m /\ UTail(line.reqs[j].u) = ""
+   ELSE LET js == {j \in 1..Len(line.reqs) : /\ line.reqs[j].m = r.m /\ UTail(line.reqs[j].u) = "" /\ UForm(line.reqs[j].u) = UForm(r.u)
                                              /\ URLStr(line.reqs[j].u) = BareURLStr(r.u)}
         IN IF js = {} \/ SameResult(line[router][i], line[router][CHOOSE j \in js : TRUE]) THEN {}
            ELSE {"query_or_fragment_changed_the_result"}
